@@ -168,14 +168,19 @@ union Tag
     t0
     te Entry
 
+struct Only
+    o Int32
+
 struct Node
     entry Entry
     entries List(Entry)
     me Map(String, Entry)?
+    only Only?
 
 union UN
     ue Entry
     ut Tag
+    uo Only
 '''
 X_FILES = '''namespace files
 
